@@ -53,6 +53,7 @@ pub struct SimFsInner {
     /// what `read` actually delivered, by the path string as passed
     pub delivered: BTreeMap<String, Vec<u8>>,
     pub latency_seed: u64,
+    pub persistent_failures: u64,
 }
 
 #[derive(Debug)]
@@ -178,6 +179,7 @@ impl SimFs {
                 history: vec![],
                 delivered: BTreeMap::new(),
                 latency_seed,
+                persistent_failures: 0,
             }),
         }
     }
@@ -223,6 +225,17 @@ impl SimFs {
                 Fault::Stall { at, latency } if at == k => {
                     stall = latency;
                     g.fired[i] = true;
+                }
+                Fault::ReadErrAlways { ref path, kind } if op == FsOp::Read && normalize(&g.cwd, path) == norm => {
+                    err = Some(kind);
+                    g.fired[i] = true;
+                    g.persistent_failures += 1;
+                    if g.persistent_failures > 10_000 {
+                        // the caller keeps retrying a read that fails every time: a retry loop that
+                        // never gives up. End it deterministically instead of waiting for the wall clock.
+                        drop(g);
+                        std::panic::panic_any(grass_compiler::verif::FuelExhausted("fs-retry"));
+                    }
                 }
                 _ => {}
             }
